@@ -483,6 +483,36 @@ func c07Run(c *fx.Ctx) {
 			c.Distinct("nontrivial", fmt.Sprintf("f9-%s-%d", coef, exp))
 		}
 	}
+	// family 10 (last, because each member may kill its worker): self-referential template types, and hex floats whose
+	// binary exponent is astronomically large, into numeric templates
+	type recPtr *recPtr
+	type recSlice []recSlice
+	smallDoc := []byte{0x81, 0x00, 0x9a, 0x01, 0x9b}
+	for _, t := range []numTpl{{"recursive-pointer-type", recPtr(nil)}, {"recursive-slice-type", recSlice(nil)}} {
+		if !c.Take() {
+			continue
+		}
+		c.Checkpoint()
+		c.TraceInput(func() string { return "recursive-template " + t.name })
+		c07Try(c, "ce.UnmarshalFromCBEDocument", smallDoc, t.name, func() error { _, err := ce.UnmarshalFromCBEDocument(smallDoc, t.t, configuration.New()); return err })
+		c07Try(c, "ce.UnmarshalFromCTEDocument", []byte("c0 [1]"), t.name, func() error {
+			_, err := ce.UnmarshalFromCTEDocument([]byte("c0 [1]"), t.t, configuration.New())
+			return err
+		})
+		c.Distinct("nontrivial", "f10-"+t.name)
+	}
+	for _, lit := range []string{"0x1p2000000000", "-0x1p2000000000", "0x1p-2000000000", "0x1.8p1000000000", "0x1p2147483647"} {
+		for _, t := range []numTpl{{"int64", int64(0)}, {"uint64", uint64(0)}, {"float64", float64(0)}, {"*big.Int", (*big.Int)(nil)}, {"*big.Float", (*big.Float)(nil)}, {"nil", nil}} {
+			if !c.Take() {
+				continue
+			}
+			c.Checkpoint()
+			text := []byte("c0 " + lit)
+			c.TraceInput(func() string { return fmt.Sprintf("huge-hex-exponent %s into %s", text, t.name) })
+			c07Try(c, "ce.UnmarshalFromCTEDocument", text, t.name, func() error { _, err := ce.UnmarshalFromCTEDocument(text, t.t, configuration.New()); return err })
+			c.Distinct("nontrivial", "f10-"+lit+t.name)
+		}
+	}
 }
 
 func init() {
